@@ -199,32 +199,39 @@ class G:
                 out += [self.K("async"), self.target(d + 1), self.form(d + 1)]
         return out
 
+    def subpatterns(self, d, lo, hi):
+        out = []
+        for _ in range(self.rng.randint(lo, hi)):
+            out += self.pattern(d)
+        return out
+
     def pattern(self, d):
+        """-> list of forms: one pattern, optionally followed by :as name"""
         r, m = self.rng, self.m
         k = r.random()
         if d >= self.max_depth or k < 0.3:
             p = r.choice([self.plainsym, lambda: self.S("_"), lambda: m.Integer(1), lambda: m.String("s"), self.kw,
                           lambda: self.S("None"), lambda: self.dotted("x", "A")])()
         elif k < 0.45:
-            items = [self.pattern(d + 1) for _ in range(r.randint(0, 3))]
+            items = self.subpatterns(d + 1, 0, 3)
             if r.random() < 0.3:
                 items.insert(r.randint(0, len(items)), self.E(self.S("unpack-iterable"), r.choice([self.plainsym(), self.S("_")])))
             p = (m.List if r.random() < 0.6 else m.Tuple)(items)
         elif k < 0.6:
-            p = self.E(self.S("|"), *[self.pattern(d + 1) for _ in range(r.randint(0, 3))])
+            p = self.E(self.S("|"), *self.subpatterns(d + 1, 0, 3))
         elif k < 0.75:
             kvs = []
             for _ in range(r.randint(0, 2)):
-                kvs += [r.choice([m.String("k"), m.Integer(1)]), self.pattern(d + 1)]
+                kvs += [r.choice([m.String("k"), m.Integer(1)]), *self.pattern(d + 1)]
             if r.random() < 0.3:
                 kvs.append(self.E(self.S("unpack-mapping"), self.plainsym()))
             p = m.Dict(kvs)
         else:
             head = r.choice([self.plainsym(), self.dotted("x", "C")])
-            pos = [self.pattern(d + 1) for _ in range(r.randint(0, 2))]
+            pos = self.subpatterns(d + 1, 0, 2)
             kws = []
             for _ in range(r.randint(0, 2)):
-                kws += [self.kw(), self.pattern(d + 1)]
+                kws += [self.kw(), *self.pattern(d + 1)]
             p = self.E(head, *pos, *kws)
         out = [p]
         if r.random() < 0.2:
